@@ -46,7 +46,7 @@ COMPOUTS = {'compAddBcast', 'compDeleteBcast', 'compUpdateBcast', 'compAddResp',
             'typeNameResp', 'typeIdResp', 'error'}
 
 PROPS = {
-    'C02': dict(modules=['Hagall.Props.C02', 'Hagall.Props.C02Conc'], profiles=['mixed', 'join', 'module', 'custom', 'pose'], n=(240, 4000),
+    'C02': dict(modules=['Hagall.Props.C02', 'Hagall.Props.C02Conc', 'Hagall.Props.C02Order'], profiles=['mixed', 'join', 'module', 'custom', 'pose'], n=(240, 4000),
                 tools=['wire-race', 'drive', 'extract', 'wire'], extra=['race_harness', 'wire_harness', 'conc_explore'],
                 focus={'join', 'entityAdd', 'entityDelete', 'updatePose', 'custom', 'action', 'assetAdd'},
                 topics=slice_of(['join', 'entityAdd', 'entityDelete', 'updatePose', 'custom', 'action', 'assetAdd', 'disconnect'],
